@@ -168,6 +168,7 @@ structure Cfg where
   drainFirst : Bool            -- `_pids_reused` is drained before `new_pids`/`gone_pids` are computed
   rangeGuard : Bool            -- `pid_exists` answers False for an int outside `pid_t` instead of raising
   validNames : List String     -- `_as_dict_attrnames`
+  noAccessAttrs : List String  -- names `as_dict` answers from the object itself (`pid`, the cached `create_time`)
   reuseAttrs : List String     -- valid names whose getter starts with `_raise_if_pid_reused()`
 
 /-- a `psutil.Process` object -/
@@ -291,7 +292,7 @@ inductive AttrKind | pid | plain | reuse
   deriving DecidableEq, Repr
 
 def kindOf (cfg : Cfg) (name : String) : AttrKind :=
-  if name == "pid" then .pid else if cfg.reuseAttrs.contains name then .reuse else .plain
+  if cfg.noAccessAttrs.contains name then .pid else if cfg.reuseAttrs.contains name then .reuse else .plain
 
 /-- the loop over the names; `false` = NoSuchProcess came out -/
 def asDictLoop (cfg : Cfg) (r : Ref) (pid : Nat) : St → List String → St × Bool
